@@ -13,8 +13,8 @@ from checks import registry   # noqa
 
 
 def seeds_table():
-    rows = ['| seeded change | breaks | needs (from the seeding agent) | confirmed (suite 219/10, demo fails with / passes without) | caught by |',
-            '|---|---|---|---|---|']
+    rows = ['| seeded change | breaks | needs (from the seeding agent) | confirmed (suite 219/10, demo fails with / passes without) | caught by | missed at first; check strengthened by |',
+            '|---|---|---|---|---|---|']
     notes = {}
     p = os.path.join(HERE, 'seeded', 'NOTES.json')
     if os.path.exists(p):
@@ -30,8 +30,9 @@ def seeds_table():
                     if mm:
                         keys.append('%s:%s' % (mm.group(1), mm.group(2)[:60]))
                 caught.append('%s (%s)' % (pid, '; '.join(keys[:2])))
-        rows.append('| %s | %s | %s | %s | %s |' % (m['id'], m['breaks_property'], notes.get(m['id'], {}).get('needs', ''),
-                                                  'yes' if m.get('confirmed') else 'NO', ', '.join(caught) or 'MISSED'))
+        rows.append('| %s | %s | %s | %s | %s | %s |' % (m['id'], m['breaks_property'], notes.get(m['id'], {}).get('needs', ''),
+                                                       'yes' if m.get('confirmed') else 'NO', ', '.join(caught) or 'MISSED',
+                                                       notes.get(m['id'], {}).get('missed_at_first', '')))
     return '\n'.join(rows)
 
 
